@@ -278,7 +278,7 @@ impl Property for C11 {
         if sc.param("starve") != 0 {
             v.hit("group_of_contacts_falls_silent_together");
         }
-        if run.stats.get("send_to_port_0_einval").copied().unwrap_or(0) > 0 {
+        if run.stats.get("fault_send_to_port_0_einval").copied().unwrap_or(0) > 0 {
             v.hit("refresh_ping_fails_to_send");
         }
         if sc.reals[0].nodes.len() == 1 && n > 1 {
